@@ -158,6 +158,10 @@ class Verifier(Engine):
             self.cover(st, site)
             declared = [(e, x) for e, x in c.raises if e == exc or EXC_PARENTS.get(exc) == e]
             old = self.old_state(st)
+            if not declared and not c.total:
+                # safety modulo the function's own guards: this path is dropped (and listed)
+                self.delegated.append("%s#%s:%s not proved unreachable (bounded)" % (self.fi.name, site, exc))
+                return
             if not declared:
                 self.oblige(st, False, "unreachable:%s" % exc, node, site=site,
                             props=c.exc_props.get("*"), kind="noraise",
@@ -348,7 +352,21 @@ class Verifier(Engine):
         self.assign_target(s.target, self.arith(s.op, cur, val, st, s), st, s)
         return [(st, (Signal.NORMAL, None))]
 
+    def typed_empty(self, ty):
+        comps = ty[1]
+        arrs = [z3.K(z3.IntSort(), self.default_of(c)) for c in comps]
+        return SymList(arrs, 0, comps, tup=(len(comps) > 1 or (len(ty) > 2 and ty[2])))
+
     def assign_target(self, t, val, st, node):
+        if isinstance(val, EmptyList):
+            # an empty list literal takes the element type the sidecar declares for its variable
+            if isinstance(t, ast.Name) and t.id in self.contract.locals and \
+                    isinstance(self.contract.locals[t.id], tuple):
+                val = self.typed_empty(self.contract.locals[t.id])
+            elif isinstance(t, ast.Attribute) and isinstance(t.value, ast.Name) and t.value.id == "g":
+                gt = (self.contract.hooks or {}).get("ghost_types", {})
+                if t.attr in gt:
+                    val = self.typed_empty(gt[t.attr])
         if isinstance(t, ast.Name):
             declared_nonlocal = self.is_nonlocal(t.id, st)
             st.assign(t.id, val, nonlocal_ok=declared_nonlocal)
